@@ -55,8 +55,9 @@ Proof.
            | rbind ?x _ = _ => destruct x eqn:?; cbn [rbind] in H; [|discriminate]
            end.
     eapply apply_skip_is_select; eassumption.
-  - destruct (strip l), (strip r). destruct (join_finish _ _ _ _); cbn [rbind] in H; [|discriminate].
-    eapply apply_skip_is_select; eassumption.
+  - destruct (strip l), (strip r).
+    repeat match type of H with context [if ?c then _ else _] => destruct c end;
+      (destruct (join_finish _ _ _ _); cbn [rbind] in H; [|discriminate]; eapply apply_skip_is_select; eassumption).
   - injection H as <-. destruct il; auto.
 Qed.
 
